@@ -1,7 +1,9 @@
 """C10 -- no public call modifies the arrays, tables or models passed to it.
 
 Shape (C): full product  registry entry  x  geometry  x  argument representation
-x  data condition  x  mask form.  Every entry is a call
+x  data condition  x  mask form, plus  registry entry x companion slot x companion
+representation x data condition [x geometry]  and  table argument x table form
+(see below).  Every entry is a call
 recipe of ``mcphot.ref.registry`` that builds valid arguments from a small scene.
 *Geometry* is the shape relation between the image handed to the API and the
 box / cutout / aperture / fit box / segment / kernel the implementation works
@@ -23,6 +25,38 @@ all-False: negatives; True pixels: masked, nonfinite*), 'none' / 'empty' force
 None / all-False for every condition.  Quick tier: 'cond' everywhere plus
 'none' and 'empty' for the two conditions with non-finite pixels at the base
 geometry; thorough tier: the full product.
+
+*One companion at a time*: the representations re-wrap the image (and, in
+'view', every array at once).  Every OTHER array argument of a recipe -- error,
+background, threshold / convolved-data / gain maps, kernels, weights,
+footprints, masks and coverage masks, coordinate / radius / label arrays: the
+"companion slots" the recipe registers with the context, listed per recipe under
+coverage.companion_slots -- is singled out in turn: the image and all other
+arguments are plain C-contiguous ndarrays, the slot alone is handed over as a
+MaskedArray that owns a real mask array with True pixels (two-dimensional float
+arrays; thorough also: a real all-False mask array) or as a non-contiguous view
+(every second element along each axis) of a larger, watched array (every slot).
+Quick: x the four conditions holding a pixel a clean-up branch writes to, base
+geometry; thorough: x all conditions x all geometries.
+
+*Table arguments* (init_params of PSFPhotometry / IterativePSFPhotometry,
+params tables of make_model_image / params_table_to_models, catalogues of
+extract_stars): the code renames columns to canonical names, adds missing
+columns, converts units and reorders -- whether it works on a copy may depend on
+which of these is needed, so the *table form* is an axis: column-name convention
+{x/y/flux, x_0/y_0/flux_0, x_init/y_init/flux_init (canonical: nothing to
+rename), xcentroid/ycentroid/flux, x_fit/y_fit/flux_fit} x {QTable, Table} x
+every subset of the optional columns {flux, id, group_id, local_bkg} (minimal ..
+complete) x {columns in the data unit, flux / local_bkg in mJy instead of Jy}
+x {plain, Quantity data}, an extra fitted parameter column under each accepted
+spelling, a result table fed back, and forms the call rejects (it raises, maybe
+after the clean-up has begun); iterative class: minimal / complete sets in the
+quick tier, the full product in the thorough tier.  Model-parameter tables and
+catalogues: every subset of their optional columns x table class.  Besides, the
+minimal canonical init table (and with Quantity data the one with flux in mJy)
+is passed in EVERY run of the three PSF-photometry recipes (x representation x
+condition x geometry).  Tables are snapshotted deeply: class, column order, per
+column values / dtype / shape / unit / column class / mask / info, and meta.
 
 Every caller-held object (data, error, mask, background / threshold maps,
 kernels, footprints, position arrays, label arrays, column lists, plot origins,
@@ -85,7 +119,20 @@ RULE = ('full Cartesian product: every registry recipe (one per public entry poi
         'argument arrays watched; all caller-held objects are compared with their '
         'snapshot after every step; one evaluation = one executed step; a step is non-trivial when it ran to completion '
         '(did not raise) -- steps that raise are still checked; distinct = distinct (step label, representation, condition, '
-        'mask form, geometry)')
+        'mask form, geometry).  ONE COMPANION AT A TIME: for every recipe, every other array argument it registers (companion '
+        'slot: error, background, threshold / convolved / gain maps, kernels, weights, footprints, masks, coverage masks, '
+        'coordinate / radius / label arrays; coverage.companion_slots) x companion representation {MaskedArray owning a real '
+        'mask array with True pixels [2-D float arrays], non-contiguous strided view of a larger watched array [every slot]; '
+        'thorough also MaskedArray with a real all-False mask} with the image and all other arguments plain ndarrays x data '
+        'condition (quick: negatives, nonfinite, nonfinite_error, masked; thorough: all six) x geometry (quick: base; thorough: '
+        'all of the recipe).  TABLE FORMS: init_params of PSFPhotometry = column-name convention (5) x {QTable, Table} x every '
+        'subset of {flux, id, group_id, local_bkg} x {data unit, flux/local_bkg in mJy} x {plain, Quantity data}, + extra fitted '
+        'parameter column x 4 spellings x {minimal, complete}, + result table fed back, + 5 rejected (raising) forms per '
+        'convention; IterativePSFPhotometry = convention x {minimal, complete} x unit x data kind x mode (thorough: the full '
+        'product); make_model_image / params_table_to_models = every subset of the optional columns {id, flux, fwhm, '
+        'model_shape, local_bkg[, name]} x {QTable, Table} x flux {plain, Quantity}; extract_stars catalogues = every subset '
+        'of {id, x+y, skycoord, extra column} giving a position x {Table, QTable} for one image, linked images and an image '
+        'with WCS; the minimal canonical init table is also passed in every run of the PSF-photometry recipes')
 ASSUMPTIONS = ['numpy / astropy containers report their own state faithfully (tobytes, mask, fill_value, unit)',
                'a cached lazyproperty value appearing in a caller-held photutils object is not a modification',
                'one scene (41x47, four sources) per condition, handed over whole or as one of the frames of the geometry alphabet '
@@ -100,6 +147,17 @@ ASSUMPTIONS = ['numpy / astropy containers report their own state faithfully (to
                'the second pass watches the object itself only while it runs (after its caches are filled); during the first '
                'pass (property reads, argument-less methods such as normalize()) only the objects the caller passed in are watched',
                'quick tier: mask forms "none" / "empty" are combined with the non-finite conditions at the base geometry only',
+               'one companion at a time: a companion is singled out with the image being a plain ndarray (pairs of non-plain '
+               'arguments only as in the representations "view" [all views], "quantity" [all Quantities] and, thorough, '
+               '"ma_error"); quick tier: base geometry, mask form "cond", the four conditions with bad pixels -- an aliasing of '
+               'a companion that needs a clean integer image or another geometry is reached in the thorough tier only; '
+               'MaskedArray companions carry two masked pixels at fixed generic places; companion slots are the array '
+               'arguments the recipes hand out through the context (coverage.companion_slots): tuples, lists and scalars '
+               'are watched but have one representation',
+               'table forms are enumerated on the clean scene (plain and Quantity data); with the other representations / '
+               'conditions / geometries only the baseline table and the minimal canonical table are passed; column-name '
+               'conventions: 5 of the 14 accepted x/y spellings and 4 of the 10 flux spellings (one per class: bare, model '
+               'parameter, canonical, finder output, fit result)',
                'remote data loaders (photutils.datasets.load_*) need the network and are not called (coverage.uncovered); '
                'abstract base classes, mixins and the aperture descriptor classes are exercised through a concrete class '
                '(coverage.covered_through_concrete_class, verified member by member)']
@@ -155,6 +213,55 @@ def combos(r, tier):
     return out
 
 
+# ---- one companion at a time -------------------------------------------------------------------------------------------
+# Besides the representations above (which re-wrap the IMAGE, and in 'view' every array at once), every other array
+# argument of a recipe -- error, background, threshold / convolved-data / gain maps, kernels, weights, footprints, masks,
+# coverage masks, coordinate and label arrays: the *companion slots* the recipe registers with the context -- is singled
+# out in turn: the image and all other arguments are plain ndarrays, the slot alone is a MaskedArray owning a real mask
+# array with True pixels / (thorough) a real all-False mask array (two-dimensional float arrays), or a non-contiguous
+# view of a larger array (every slot).  Quick: x every condition at the base geometry; thorough: x every geometry.
+COMPANIONS = 'companions'
+
+
+def companion_kinds(tier):
+    return R.COMPANION_KINDS_THOROUGH if tier == 'thorough' else R.COMPANION_KINDS_QUICK
+
+
+def companion_conditions(tier):
+    """Quick: the four conditions that hold a pixel a clean-up branch writes to
+    (negative, non-finite data, non-finite error, masked); thorough: all six."""
+    return R.CONDITIONS if tier == 'thorough' else tuple(c for c in R.CONDITIONS if c not in ('clean', 'int'))
+
+
+_SLOTS = {}
+
+
+def companion_slots(name, geom, seed):
+    """The companion slots of a recipe at one geometry, found by executing it
+    once (condition 'masked': every mask argument is handed out)."""
+    if (name, geom, seed) not in _SLOTS:
+        c = R.run_recipe(name, 'ndarray', 'masked', seed, geom=geom)
+        _SLOTS[name, geom, seed] = dict(c.array_slots) if c is not None else {}
+    return _SLOTS[name, geom, seed]
+
+
+def companion_combos(r, tier, seed):
+    """(mask form, 'companion:<kind>:<slot>', condition, geometry), simplest
+    first; a mask slot is skipped where the condition has no mask argument."""
+    cc = companion_conditions(tier) if 'cond' in r.axes else R.CONDITIONS[:1]
+    out = []
+    for geom in (geoms(r, tier) if tier == 'thorough' else ('base',)):
+        for slot, info in companion_slots(r.name, geom, seed).items():
+            for kind in companion_kinds(tier):
+                if kind not in R.COMPANION_LAYOUT_KINDS and info['kinds'] != 'all':
+                    continue
+                for cond in cc:
+                    if info['mask'] and 'cond' in r.axes and cond in ('clean', 'int'):
+                        continue           # the mask argument is None there
+                    out.append(('cond', f'companion:{kind}:{slot}', cond, geom))
+    return out
+
+
 def plan(tier, seed):
     units = []
     for name, r in R.RECIPES.items():
@@ -162,6 +269,8 @@ def plan(tier, seed):
             continue
         for rep in sorted({c[1] for c in combos(r, tier)}, key=reps(tier).index):
             units.append({'recipe': name, 'rep': rep})
+        if r.companions:
+            units.append({'recipe': name, 'rep': COMPANIONS})      # (the slots are found by the unit itself)
     return units
 
 
@@ -178,6 +287,14 @@ def run_combo(acc, name, rep, cond, mf, seed, sample=False, geom='base'):
         acc.skip('combination not applicable')
         return None
     case0 = {'recipe': name, 'rep': rep, 'cond': cond, 'maskform': mf, 'geom': geom}
+    if rep.startswith('companion:'):
+        if not c.comp_applied:
+            acc.skip('companion slot not handed out in this combination')
+            return None
+        acc.counters['companion runs: ' + rep.split(':')[1]] += 1
+        unknown = set(c.array_slots) - set(companion_slots(name, geom, seed))
+        if unknown:      # (the discovery run leaves the C10-only steps out: a slot registered by one of them must not go unnoticed)
+            raise AssertionError(f'recipe {name!r}: companion slots {sorted(unknown)} are not found by companion_slots()')
     for i, (label, status) in enumerate(c.steps):
         ok = status == 'ok'
         acc.case(nontrivial=ok, key=(label, rep, cond, mf, geom) if ok else None,
@@ -201,6 +318,10 @@ def run_combo(acc, name, rep, cond, mf, seed, sample=False, geom='base'):
 def run_unit(unit, tier, seed):
     acc = Acc()
     name = unit['recipe']
+    if unit['rep'] == COMPANIONS:
+        for n, (mf, rep, cond, geom) in enumerate(companion_combos(R.RECIPES[name], tier, seed)):
+            run_combo(acc, name, rep, cond, mf, seed, sample=(n % 41 == 0), geom=geom)
+        return acc
     for n, (mf, rep, cond, geom) in enumerate(combos(R.RECIPES[name], tier)):
         if rep == unit['rep']:
             run_combo(acc, name, rep, cond, mf, seed, sample=(n % 41 == 0), geom=geom)
@@ -270,7 +391,33 @@ def describe(tier, seed):
         if len(gg) > 1:
             by_alphabet.setdefault(' | '.join(gg) if len(gg) < 12 else f'base + {len(gg) - 1} Background2D box layouts', []).append(r.name)
     from ..ref import registry_recipes as RR
-    return {'alphabet': {'recipes': len(R.RECIPES), 'representations': list(reps(tier)), 'conditions': list(R.CONDITIONS),
+    slots = {}
+    ncomp = 0
+    for r in R.RECIPES.values():
+        if (r.slow and tier != 'thorough') or not r.companions:
+            continue
+        sl = companion_slots(r.name, 'base', seed)
+        if sl:
+            slots[r.name] = {k: ('MaskedArray kinds + strided view' if v['kinds'] == 'all' else 'strided view')
+                             + (' (where the condition has a mask argument)' if v['mask'] else '') for k, v in sl.items()}
+        ncomp += len(companion_combos(r, tier, seed)) if tier != 'thorough' else 0
+    tables = {'init_params conventions (x, y, flux)': {k: list(v) for k, v in RR.INIT_NAMES.items()},
+              'init_params optional columns (every subset)': list(RR.INIT_OPTIONAL),
+              'init_params forms: PSFPhotometry, plain data': len(RR.init_table_forms(False)),
+              'init_params forms: PSFPhotometry, Quantity data': len(RR.init_table_forms(True)),
+              'init_params forms: IterativePSFPhotometry per mode (quick), plain / Quantity data': [
+                  len(RR.init_table_forms(u, classes=('QTable',), subsets=(RR.MINIMAL, RR.COMPLETE))) for u in (False, True)],
+              'extra fitted parameter column spellings': [str(x) for x in RR.INIT_FWHM_NAMES],
+              'params table optional columns (every subset)': list(RR.PARAMS_OPTIONAL) + ['name (params_table_to_models)'],
+              'catalogue columns (every subset giving a position)': ['id', 'x + y', 'skycoord', 'extra column'],
+              'table classes': ['QTable', 'Table'],
+              'snapshot': 'class, column order, per column values / dtype / shape / unit / column class / mask / info, meta'}
+    return {'companion_slots': slots,
+            'companion_axis': {'representations': list(companion_kinds(tier)), 'conditions': list(companion_conditions(tier)),
+                               'geometries': 'all of the recipe' if tier == 'thorough' else ['base'],
+                               'runs': ncomp if tier != 'thorough' else 'counters: companion runs'},
+            'table_forms': tables,
+            'alphabet': {'recipes': len(R.RECIPES), 'representations': list(reps(tier)), 'conditions': list(R.CONDITIONS),
                          'mask_forms': list(maskforms(tier)) + ([f'{mf} x {cond} (base geometry)' for mf, cond in QUICK_EXTRA_MASKFORMS]
                                                                  if tier != 'thorough' else []),
                          'mask_argument_values': ['None', 'all-False array', 'array with True pixels',
